@@ -15,7 +15,7 @@ P["C07"] = {"assumptions": [ADUR, ATL, A["A1"], A["KANI"]], "trusted_base": TB_K
             "not_decided": ["agreement of TimeScale::get_duration with the terminal test is proved for delay+span exact (class of f32 absorption excluded, see DESIGN.md section 4 C07)"]}
 P["C08"] = {"assumptions": [A["KANI"], A["A5"], "generated update assigns a field only if value_at returns Some (C17 harnesses)"], "trusted_base": TB_V + TB_K, "not_decided": []}
 P["C10"] = {"assumptions": [A["A1"], A["KANI"], A["FLOAT"]], "trusted_base": TB_V + TB_K, "not_decided": []}
-P["C11"] = {"assumptions": [A["KANI"]], "trusted_base": TB_K, "not_decided": ["bounded: 0..5 and 7 keyframes (std sort executed with unwinding assertions); positions fully symbolic. Downstream, sorted distinct positions determine everything (C01 contracts take the sorted list)"]}
+P["C11"] = {"assumptions": [A["KANI"]], "trusted_base": TB_K, "not_decided": ["bounded: 0..5, 7, 8 (and 9 in the thorough tier) keyframes (std sort executed with unwinding assertions); positions fully symbolic. Downstream, sorted distinct positions determine everything (C01 contracts take the sorted list)"]}
 P["C12"] = {"assumptions": [ATL, A["KANI"]], "trusted_base": TB_K, "not_decided": ["bounded: 0..5 components"]}
 P["C13"] = {"assumptions": [A["KANI"], A["FLOAT"], "lyon_geom's Bezier polynomial is executed, not assumed"], "trusted_base": TB_K,
             "not_decided": ["range [0,1] for OutSine, OutQuad, OutCubic, OutQuart, OutQuint, OutExpo (no result in 900-1500 s with Kissat); the other 20 non-Back curves are proved (8 in the quick tier, 12 in the thorough tier)", "monotonicity and In/Out point-mirror: harnesses were written (a(x)+b(1-x)=1 within 1e-5 for 6 pairs; calc(x)<=calc(y)+1e-6 for x<=y for 3 curves) and did not return within 1200 s each with Kissat, so they are not registered"]}
@@ -34,7 +34,7 @@ P["C17"] = {"assumptions": [A["KANI"], "rustc's expansion of derive(Animate) is 
 P["C09"] = {"assumptions": [A["A5"], A["KANI"], "generated update takes &self: no interior mutability in SubTimeline/TimeScale/generated struct (textual scan)"],
             "trusted_base": TB_K + TB_V, "not_decided": ["'independent of the order of queries' is by A5 (update cannot write to self) plus update's result being a function of (self, time) on the animated fields (update_contract: prior field content irrelevant)"]}
 
-for pid, why in (("C11", "bounded stand-in: TimelineBuilderArguments::from is verified by contract harnesses for 0..5 and 7 keyframes (std sort executed); positions and timing fully symbolic"),
+for pid, why in (("C11", "bounded stand-in: TimelineBuilderArguments::from is verified by contract harnesses for 0..5, 7, 8, 9 keyframes (std sort executed); positions and timing fully symbolic"),
                  ("C12", "bounded stand-in: MergedTimeline is verified by contract harnesses for 0..5 arbitrary component timelines; Repeat's order is proved completely"),
                  ("C17", "bounded over programs: contract harnesses on the real derive expansion for four struct shapes, every value symbolic; from_keyframes itself is proved for every size (Verus)")):
     P[pid]["level"] = "other"
